@@ -127,6 +127,10 @@ export const ODD_FORMS = [
   'for (const row of rows) out.push(<Wrapper>{cell(row)}</Wrapper>);', 'while (c) y = <A>{f()}</A>;', 'do x = <A>{f()}</A>; while (c);', 'for (const k in o) if (k) r = <A>{f()}</A>;', 'do use(1); while (!accept(<Probe>{measure(n)}</Probe>));',
   '<div v-x={[v, "a", ["a.b"]]} />', '<input v-model={[val, ["trim.lazy"]]} />', '<C v-model={state?.value} />', '<input v-model={form.fields?.[name]} />', '<C v-models={[[s?.a, "a"]]} />',
   '<A v-foo:a-b={x} />', '<A v-foo:1={x} />', '<div data-a-b-c="1" aria-x />', '<div a.b="1" />'.replace('a.b', 'ab'),
+  // back-slashes in JSX text and attribute strings are plain characters; object members with accessor / method bodies in slot content
+  '<p>Install it to C:\\xampp\\</p>', '<p>a\\nb \\u0041 \\x \\</p>', '<A>path\\</A>', '<p title="C:\\dir\\" data-x="\\u{1}">\\"</p>',
+  '<Comp>{format({ get label() { return 1; }, set label(v) {}, m() { return 2; }, async *g() {} })}<b>x</b></Comp>', '<Comp>{{ get default() { return () => [1]; } }}</Comp>', '<Comp>{class { get a() { return <i />; } static s = <b />; }}<i /></Comp>',
+  '<div v-foo_={x} />', '<input v-model_trim__lazy={x} />', "<div v-foo={[x, ['', 'bar']]} />", "<C v-model={[x, ['']]} />", '<div v-foo_a_={x} v-bar__={y} />',
 ];
 
 // TSX modules with legal-but-odd forms on the resolveType path
@@ -147,6 +151,13 @@ export const ODD_TSX = [
   'import { defineComponent, SetupContext } from "vue";\nexport const C = defineComponent((props: { a?: string } = { a: `t${<i />}` as any }, ctx: SetupContext<{ (e: "x"): void }>) => () => <></>, { inheritAttrs: false });',
   'import { defineComponent } from "vue";\nexport const C = defineComponent((props: { render?: () => object } = { render: () => <i />, }) => () => props.render!());',
   'import { defineComponent } from "vue";\nexport const C = defineComponent((props: { n?: number } = { n: (<i /> as any) }) => () => <C2 v-model={props.n!} />);',
+  // computed string-literal keys in a props / emits type (also ones that are not identifier names)
+  'import { defineComponent } from "vue";\ninterface Props { ["aria-label"]: string; ["2xl"]?: boolean; ["ok"]: number; [\'a b\']: string }\nexport const C = defineComponent((props: Props) => () => <i>{props.ok}</i>);',
+  'import { defineComponent, SetupContext } from "vue";\ninterface Base { ["update:x"]: [value: number] }\ninterface Emits extends Base { ["foo-bar"]: []; baz: [] }\nexport const C = defineComponent((props: { ["data-id"]?: string; 0: number; 1e3?: string }, ctx: SetupContext<Emits>) => () => <i />);',
+  'import { defineComponent } from "vue";\nexport const C = defineComponent((props: { [`tpl`]: string; "q-k": number; \'s\\\\t\': boolean }) => () => <i />);',
+  // defineComponent calls under assertions / satisfies / non-null / parentheses: the wrappers are the user's code
+  'import { defineComponent, Component } from "vue";\nconst Foo = defineComponent({ setup() { return () => <i />; } }) as Component;\nexport const Bar = defineComponent((props: { a: string }) => () => <i>{props.a}</i>) satisfies Component;\nexport const Baz = (defineComponent(() => () => <b />))!;\nconst Q = defineComponent({}) as unknown as Component<{ a: 1 }>;\nexport { Foo, Q };',
+  'import { defineComponent } from "vue";\nlet L: any;\nL = defineComponent((props: { n: number }) => () => <i>{props.n}</i>) as any;\nexport const M = <any>defineComponent(() => () => null)'.replace('<any>', '(') + ');\nexport default L;',
 ];
 
 // ---------------------------------------------------------------- G-ADV
